@@ -47,7 +47,8 @@ class Obj:
         raise Unsupported("attribute %s" % name)
 
 
-STR_METHODS = {"lower", "upper", "strip", "lstrip", "rstrip", "startswith", "endswith", "find", "rfind", "replace",
+STR_METHODS = {"lower", "upper", "strip", "lstrip", "rstrip", "startswith", "endswith", "find", "rfind", "replace", "rindex", "partition",
+               "rpartition", "isidentifier", "isupper", "islower", "zfill", "ljust", "rjust", "center",
                "isdigit", "isalpha", "isalnum", "isspace", "split", "rsplit", "join", "count", "index", "expandtabs",
                "splitlines", "title", "format"}
 LIST_METHODS = {"append", "pop", "insert", "reverse", "index", "count", "extend"}
@@ -337,6 +338,15 @@ class Evaluator:
                 base[self.ev(target.slice, env)] = value       # `items[idx] = ...` on a local list/dict
             else:
                 raise Unsupported("assignment target")
+        elif isinstance(target, ast.Attribute):
+            base = self.ev(target.value, env)
+            if isinstance(base, Obj):
+                if hasattr(base, "set_attr"):
+                    base.set_attr(self, target.attr, value)      # records with a class (rules/one_roundtrip.py)
+                else:
+                    base.fields[target.attr] = value
+            else:
+                raise Unsupported("assignment target")
         else:
             raise Unsupported("assignment target")
 
@@ -396,6 +406,14 @@ class Evaluator:
             raise _Continue()
         elif isinstance(s, ast.Pass):
             return
+        elif isinstance(s, (ast.Import, ast.ImportFrom)):
+            # a function-level import: fine when the evaluator already knows every imported name
+            for al in s.names:
+                nm = (al.asname or al.name).split(".")[0]
+                if nm in self.g:
+                    env[nm] = self.g[nm]
+                else:
+                    raise Unsupported("import of %s" % nm)
         elif isinstance(s, ast.Raise):
             e = s.exc.func if isinstance(s.exc, ast.Call) else s.exc
             raise PyRaise(getattr(e, "id", getattr(e, "attr", "Exception")))
